@@ -22,6 +22,8 @@ package sign
 //@   ensures[C20] result1 == nil ==> (config != nil && len(message) > 0)
 //@   ensures[C20] result1 == nil ==> (lastresult(CanSign) && result0 != nil)
 //@   loop 1: invariant PublicKey != nil && fresh(ECDSA) && fresh(Paillier) && fresh(Pedersen)
+// (induction on the session object) on success the next round starts from the state invariant its methods assume
+//@   ensures result1 == nil ==> (typeis(result0, *round1) && sg1ok(result0.(*round1)))
 
 // ---- message handlers of the signing rounds (C05, C03)
 // per-party public data is complete for every signer (established by the start function from a well-formed config)
@@ -110,11 +112,15 @@ package sign
 //@   nopanic[C05]
 //@   use bits
 //@   requires sg1ok(r) && sgall(r) && out != nil && !closed(out)
+// (induction on the session object) on success the next round starts from the state invariant its methods assume
+//@   ensures result1 == nil ==> (typeis(result0, *round2) && sg2ok(result0.(*round2)) && result0.(*round2).round1 == r && result0.(*round2).GammaShare != nil && result0.(*round2).KShare != nil && result0.(*round2).KNonce != nil && result0.(*round2).GNonce != nil)
 //@ func (*round2).Finalize
 //@   nopanic[C05]
 //@   use bits
 //@   requires sg2ok(r) && sgall(r.round1) && out != nil && !closed(out) && r.GammaShare != nil && r.GNonce != nil
 //@   requires forall(j, party.ID, inslice(r.Helper.partyIDs, j) ==> (r.K[j] != nil && r.K[j].c != nil && r.G[j] != nil && r.G[j].c != nil)) && r.BigGammaShare[r.Helper.info.SelfID] != nil
+// (induction on the session object) on success the next round starts from the state invariant its methods assume
+//@   ensures result1 == nil ==> (typeis(result0, *round3) && sg3ok(result0.(*round3)) && result0.(*round3).round2 == r && result0.(*round3).DeltaShareBeta != nil && result0.(*round3).ChiShareBeta != nil)
 //@ func (*round3).Finalize
 //@   nopanic[C05]
 //@   use bits
@@ -124,11 +130,15 @@ package sign
 //@   requires r.K[r.Helper.info.SelfID] != nil && r.K[r.Helper.info.SelfID].c != nil
 //@   loop 1: invariant Gamma != nil
 //@   loop 2: invariant DeltaShare != nil && ChiShare != nil && fresh(DeltaShare) && fresh(ChiShare)
+// (induction on the session object) on success the next round starts from the state invariant its methods assume
+//@   ensures result1 == nil ==> (typeis(result0, *round4) && sg4ok(result0.(*round4)) && result0.(*round4).round3 == r && result0.(*round4).ChiShare != nil)
 //@ func (*round4).Finalize
 //@   nopanic[C05]
 //@   requires sg4ok(r) && out != nil && !closed(out) && r.KShare != nil && r.ChiShare != nil && len(r.Message) > 0
 //@   requires forall(j, party.ID, inslice(r.Helper.partyIDs, j) ==> (r.DeltaShares[j] != nil && r.BigDeltaShares[j] != nil))
 //@   loop 1: invariant Delta != nil && BigDelta != nil
+// (induction on the session object) on success the next round starts from the state invariant its methods assume
+//@   ensures (result1 == nil && typeis(result0, *round5)) ==> (result0.(*round5).round4 == r && result0.(*round5).R != nil && result0.(*round5).BigR != nil && result0.(*round5).SigmaShares != nil)
 //@ func (*round5).Finalize
 //@   nopanic[C05]
 //@   requires r != nil && sg4ok(r.round4) && r.R != nil && r.BigR != nil && r.PublicKey != nil && len(r.Message) > 0
